@@ -344,16 +344,6 @@ func classifyW1(p *Prog, fc *freshCtx, s *w1Site) {
 		}
 	}
 
-	// G2t: Freeze method setting a (shared) frozen flag to constant true
-	if s.field.Name() == "frozen" && fn.Name() == "Freeze" {
-		if st, ok := s.instr.(*ssa.Store); ok {
-			if k, ok := st.Val.(*ssa.Const); ok && k.Value != nil && k.Value.String() == "true" {
-				s.class, s.reason = "G2", "Freeze sets the frozen flag to true (monotone, idempotent)"
-				return
-			}
-		}
-	}
-
 	// G5 construction phase of compiled programs
 	if (s.owner == "internal/compile.Program" || s.owner == "internal/compile.Funcode") && fnPkgPath(fn) == modPath+"/internal/compile" {
 		top := outermost(fn)
